@@ -2119,7 +2119,7 @@ after `let end = bp.current_offset();`:
     proof { lemma_off_mono(bp.toks(), old(bp).cur(), bp.cur()); }
 @*/
 /*@ fn src/parser/step.rs timer
-tags C03 C04 C05 C07 C02
+tags C03 C04 C05 C06 C07 C02
 ret r
 inline map 0
 inline unwrap_or_else 0
@@ -2128,6 +2128,8 @@ spec:
     ensures final(bp).wf(), final(bp).same(old(bp)), only_diags(final(bp).evs(), old(bp).evs()),
         // [C04] [C05] the event spans exactly the consumed tokens
         r.is_some() ==> final(bp).cur() > old(bp).cur() && comp_at(r.unwrap(), old(bp).off(), final(bp).off()),
+        // [C06] every timer that is emitted has a name or a quantity (a bare `~{}` gets an error and a recovered quantity)
+        r.is_some() ==> r.unwrap() is Timer && (r.unwrap()->Timer_0.val().name.is_some() || r.unwrap()->Timer_0.val().quantity.is_some()),
 after `let body = comp_body(bp)?;`:
     proof { lemma_off_mono(bp.toks(), old(bp).cur() + 1, bp.cur()); lemma_names(); }
 after `let end = bp.current_offset();`:
